@@ -7,10 +7,10 @@ from common import *
 req = read_request()
 import sqlalchemy.orm
 from sqlalchemy.exc import OperationalError
-from redun import task, Scheduler, File
+from redun import task, Scheduler, File, Handle
 from redun.config import Config
 from redun.scheduler import catch
-from redun.backends.db import CallNode, Job, Value, Execution, Argument, ArgumentResult, CallEdge, Subvalue, Task as TaskRow, File as FileRow, CallSubtreeTask, Evaluation
+from redun.backends.db import CallNode, Job, Value, Execution, Argument, ArgumentResult, CallEdge, Subvalue, Task as TaskRow, File as FileRow, CallSubtreeTask, Evaluation, Handle as HandleRow, HandleEdge
 
 logging.getLogger("redun").setLevel(logging.CRITICAL)
 NS = "c22t"
@@ -46,6 +46,24 @@ def write(name):
 @task(namespace=NS)
 def with_files():
     return [write("a.txt"), {"b": write("b.txt")}]
+
+
+@task(namespace=NS)
+def nested_only():
+    # files that are never the result of a task of their own: their File rows are only ever written as subvalues
+    return {"files": [File(os.path.join(tmp, "a.txt")), File(os.path.join(tmp, "b.txt"))], "n": 2}
+
+
+class Conn(Handle):
+    def __init__(self, name, uri):
+        self.uri = uri
+        self.instance = uri
+
+
+@task(namespace=NS)
+def open_conn(uri):
+    # the handle is created inside the task: the backend first sees it when the returned (advanced) handle is recorded
+    return Conn("conn", uri)
 
 
 @task(namespace=NS)
@@ -86,6 +104,7 @@ def snapshot(sess):
                 executions=sess.query(Execution).count(), executions_with_job=sess.query(Execution).filter(Execution.job_id != None).count(),     # noqa: E711
                 arguments=sorted(a.arg_hash for a in sess.query(Argument)), argument_results=sorted((a.arg_hash, a.result_call_hash) for a in sess.query(ArgumentResult)),
                 call_edges=sorted((e.parent_id, e.child_id, e.call_order) for e in sess.query(CallEdge)),
+                handles=sorted((h.hash, h.fullname, bool(h.is_valid)) for h in sess.query(HandleRow)), handle_edges=sorted((e.parent_id, e.child_id) for e in sess.query(HandleEdge)),
                 subtree_tasks=sorted((s.call_hash, s.task_hash) for s in sess.query(CallSubtreeTask)), evaluations=sorted(e.eval_hash for e in sess.query(Evaluation)))
 
 
@@ -114,6 +133,8 @@ n = 0
 w = None
 samples = []
 WORKLOADS = {"outer(1): nested containers of task results": lambda: outer(1), "with_files(): file results inside containers": lambda: with_files(),
+             "nested_only(): files that only occur inside a container result": lambda: nested_only(),
+             "open_conn(): a handle created inside a task and returned as the final result": lambda: open_conn("db://example"),
              "guarded(): a failing task under catch next to a succeeding one": lambda: guarded()}
 for name, make in WORKLOADS.items():
     if w:
@@ -132,10 +153,11 @@ for name, make in WORKLOADS.items():
         diffs = {key: dict(lost=[str(x)[:60] for x in sorted(set(map(str, snap0[key])) - set(map(str, snap.get(key, []))))][:3] if isinstance(snap0[key], list) else snap0[key],
                            extra=[str(x)[:60] for x in sorted(set(map(str, snap.get(key, []))) - set(map(str, snap0[key])))][:3] if isinstance(snap0[key], list) else snap.get(key))
                  for key in snap0 if snap.get(key) != snap0[key]}
-        if e or repr(r) != repr(r0) or diffs:
+        same_result = (r.__handle__.hash == r0.__handle__.hash) if isinstance(r, Handle) and isinstance(r0, Handle) else repr(r) == repr(r0)
+        if e or not same_result or diffs:
             w = dict(workload=name, fault="one transient OperationalError instead of commit #%d" % k, commit_of=state["where"], error=e, result=repr(r), clean_result=repr(r0), records_that_differ=diffs)
             break
     samples.append(dict(workload=name, commits=total, fault_positions=hit))
 
 finish(w is not None, witness=w, evaluations=n, samples=samples,
-       bound="3 workloads (nested containers with subvalues, file results, a failing task under catch) x one transient OperationalError at every commit position of the recording run (in-memory sqlite, retries without delay)")
+       bound="5 workloads (nested containers with subvalues, file results, files that only occur inside a container, a handle created inside a task, a failing task under catch) x one transient OperationalError at every commit position of the recording run (in-memory sqlite, retries without delay)")
